@@ -635,16 +635,15 @@ def update_moments_basic(
 def compute_online_moments(
     array: np.ndarray,
     moments: np.ndarray,
-    startflag: int = 0,
+    startflag: int = 0,  # noqa: ARG001
 ) -> None:
-    """Compute central moments in one pass through the data."""
+    """Compute central moments in one pass through the data.
+
+    The extrema of a channel start from its first sample whenever the channel
+    has not received any sample yet (``startflag`` is no longer consulted).
+    """
     nchans = moments.shape[0]
     nsamps = array.shape[0] // nchans
-
-    if startflag == 0:
-        for ichan in range(nchans):
-            moments[ichan]["min"] = array[ichan]
-            moments[ichan]["max"] = array[ichan]
 
     for ichan in prange(nchans):
         m1, m2, m3, m4 = (
@@ -655,6 +654,9 @@ def compute_online_moments(
         )
         count = moments[ichan]["count"]
         min_val, max_val = moments[ichan]["min"], moments[ichan]["max"]
+        if count == 0 and nsamps > 0:
+            min_val = array[ichan]
+            max_val = array[ichan]
 
         for isamp in range(nsamps):
             val = array[isamp * nchans + ichan]
@@ -675,21 +677,23 @@ def compute_online_moments(
 def compute_online_moments_basic(
     array: np.ndarray,
     moments: np.ndarray,
-    startflag: int = 0,
+    startflag: int = 0,  # noqa: ARG001
 ) -> None:
-    """Compute central moments in one pass through the data."""
+    """Compute central moments in one pass through the data.
+
+    The extrema of a channel start from its first sample whenever the channel
+    has not received any sample yet (``startflag`` is no longer consulted).
+    """
     nchans = moments.shape[0]
     nsamps = array.shape[0] // nchans
-
-    if startflag == 0:
-        for ichan in range(nchans):
-            moments[ichan]["min"] = array[ichan]
-            moments[ichan]["max"] = array[ichan]
 
     for ichan in prange(nchans):
         m1, m2 = moments[ichan]["m1"], moments[ichan]["m2"]
         count = moments[ichan]["count"]
         min_val, max_val = moments[ichan]["min"], moments[ichan]["max"]
+        if count == 0 and nsamps > 0:
+            min_val = array[ichan]
+            max_val = array[ichan]
 
         for isamp in range(nsamps):
             val = array[isamp * nchans + ichan]
